@@ -308,7 +308,10 @@ def run_check(prop_id, tier, seed):
             traceback.print_exc()
             ctx.note('failing-input search raised %r' % (ex,))
             found = []
-        hits.extend(found)
+        # the hits returned by the search are the shrunk ones: put them FIRST, so that the (at most 5)
+        # replays written below are the minimised inputs; the raw expectation failures of the
+        # correspondence follow (nothing is dropped: every hit is still classified)
+        hits = list(found) + hits
         unlisted = []
         for h in hits:
             try:
